@@ -1479,6 +1479,10 @@ class Emitter:
             r = m(self, rd, n, args, obj_e)
             if r is not None:
                 return r
+        if name in (self.opts.get('extern_functions') or ()) and obj_e is None:
+            # functions declared by the unit itself outside namespace rlbox (e.g. transition hooks): contract stubs
+            self.lowerings['extern stub(%s)' % name] += 1
+            return '%s(%s)' % (name, ', '.join(self.E(a) for a in args))
         raise ExtractError('unmodelled callee without body: %s : %s' % (name, rd.get('type', {}).get('qualType')))
 
     def E_CXXMemberCallExpr(self, n):
